@@ -6,7 +6,7 @@ from lib import vf, srv
 ID = "C01"
 PROP_FILE = "Props/C01.v"
 CONSTS = ["message_delimiter"]
-EXTRA_BINS = ("dcat",)
+EXTRA_BINS = ("dcat", "dgrep")
 RULE = ("generated files: line lengths around 0,1,maxlen-1,maxlen,maxlen+1,2*maxlen and around 32 KiB / 64 KiB, with and "
         "without final newline, empty lines, CRLF, all byte values with raised weight on 0x0A 0xAC 0x2E 0x7C 0x00 0xC2 0xE2, "
         "a hostile stream (only delimiters, only dots, protocol words as content); MaxLineLength in {16,1024,65536,default}; "
@@ -146,7 +146,7 @@ def run_impl(cases, tier):
     cfgs = {ml: env.write_cfg("client%d.json" % ml, server={"MaxLineLength": ml}) for ml in maxlens}
     servers = {}
     for ml in sorted({c["maxlen"] for c in cases if c["transport"] == "server"}):
-        s = env.start_server("srv%d" % ml, server_cfg={"MaxLineLength": ml})
+        s = env.start_server("srv%d" % ml, server_cfg={"MaxLineLength": ml, "MaxConnections": 100})
         servers[ml] = s
         env.client("dcat", ["--plain", "--files", "/dev/null"], servers=[s], timeout=60)   # records the host key
     mk = []
@@ -178,11 +178,39 @@ def run_impl(cases, tier):
             rc, out, err = env.client("dcat", ["--plain", "--files", c["_path"]], cfg=cfgs[c["maxlen"]], timeout=120)
         return {"rc": rc, "out": out.hex(), "err": err[-300:].decode("latin1")}
 
+    # history: while the cases run, every server also serves reads that are cancelled half way (dgrep --max 1 on a
+    # big file, a client that is killed in the middle of a transfer) - a later dcat must not be affected by them
+    big = os.path.join(fdir, "disturb_big.log")
+    with open(big, "w") as f:
+        f.write("".join("disturbance line %06d %s\n" % (k, "d" * 120) for k in range(20000)))
+    stop = {"flag": False, "n": 0}
+
+    def disturb():
+        import time as _t
+        while not stop["flag"]:
+            for s_ in servers.values():
+                env.client("dgrep", ["--plain", "--regex", "disturbance", "--max", "1", "--files", big], servers=[s_], timeout=60)
+                cmd = [os.path.join(srv.BIN, "dcat"), "--cfg", "none", "--servers", "127.0.0.1:%d" % s_.port, "--trustAllHosts",
+                       "--key", env.key, "--user", "root", "--plain", "--files", big]
+                p = subprocess.Popen(cmd, stdin=subprocess.DEVNULL, stdout=subprocess.PIPE, stderr=subprocess.DEVNULL, env=env.client_env(), cwd=env.dir)
+                p.stdout.read(4096)
+                p.kill(); p.wait()
+                stop["n"] += 2
+            _t.sleep(0.2)
+
+    import threading
+    th = threading.Thread(target=disturb, daemon=True)
+    if servers:
+        th.start()
     with ThreadPoolExecutor(vf.NCPU) as ex:
         obs = list(ex.map(one, cases))
-    # A content-dependent defect is deterministic.  Output that differs from what the modelled
-    # pipeline predicts is re-run once, alone: delivery races under load (lines lost at session
-    # shutdown) are C02's subject and must not be reported against C01.
+    stop["flag"] = True
+    if servers:
+        th.join(90)
+    _state["disturbances"] = stop["n"]
+    # A case whose output differs from what the modelled pipeline predicts is run once more, alone, and BOTH
+    # observations are kept: a difference that does not repeat is still a difference (content corrupted by
+    # an earlier read, a delivery race) and is judged on the first observation.
     delim = vf.consts()["message_delimiter"]["i"]
     _state["reruns"] = 0
     for i, (c, o) in enumerate(zip(cases, obs)):
@@ -190,9 +218,7 @@ def run_impl(cases, tier):
         if o["rc"] != 0 or strip_warn(c, bytes.fromhex(o["out"])) != want:
             o2 = one(c)
             _state["reruns"] += 1
-            if o2["rc"] == 0 and strip_warn(c, bytes.fromhex(o2["out"])) == want:
-                o2["first_attempt_differed"] = True
-                obs[i] = o2
+            o["second_attempt_matches_model"] = bool(o2["rc"] == 0 and strip_warn(c, bytes.fromhex(o2["out"])) == want)
     env.stop_all()
     for c in cases:
         c.pop("_path", None)
@@ -231,7 +257,7 @@ def judge(cases, obs, tier):
     _state["model_checked"] = len(idx)
     _state["delim"] = delim
     return {"oracle": oracle, "model": model, "errors": errors,
-            "notes": ["%d case(s) re-run alone because the first output differed from the modelled pipeline" % _state.get("reruns", 0),
+            "notes": ["%d case(s) differed from the modelled pipeline and were run a second time (both observations kept); %d cancelled reads were served by the same servers meanwhile" % (_state.get("reruns", 0), _state.get("disturbances", 0)),
                       "%d of %d cases also evaluated by the Coq model (literal budget %d bytes)" % (len(idx), len(cases), budget)]}
 
 
